@@ -323,8 +323,30 @@ func mutantSpace(name, about string, sel func(s *sample, th bool) (use, two bool
 
 const mutantRule = "every truncation point, every single-byte deletion, every substitution of one lexical token ([A-Za-z0-9_.-]+ | whitespace run | any other byte) by one token of the format's dictionary"
 
+// alphaDCURL: pieces of a URL a page can name while --domains-crawl is active: the configured domain and the host
+// of the configured URL in several letter cases, as a suffix, with a port, with user info, the regular expression's host
+var alphaDCURL = []string{`http://`, `HTTPS://`, `//`, `site.example`, `SITE.EXAMPLE`, `Site.Example`, `sub.`, `x`, `.`, `/`, `:80`, `u@`, `[::1]`,
+	`other.example`, `OTHER.example`, `/dir/`, `re.example`, `?a=b`, `#f`, `%`, ` `}
+
 func spaces() []space {
 	sp := []space{
+		{Name: "dc-links",
+			About: fmt.Sprintf("--domains-crawl active (a domain, a URL, a regular expression): a page whose anchor, image and Link header name every string of <= N tokens (quick N=3, thorough N=4) over %q; plus every valid sample under that configuration", alphaDCURL),
+			Gen: func(th bool, emit func(*Case)) {
+				tokenStrings(alphaDCURL, pick(th, 3, 4), func(s string) {
+					emit(&Case{Space: "dc-links", Desc: "token string " + s, Profile: "html", Status: 200, Conf: "dc",
+						Body: []byte(`<html><body><a href="` + s + `">x</a><img src="` + s + `"></body></html>`)})
+					emit(&Case{Space: "dc-links", Desc: "token string (text) " + s, Profile: "text", Status: 200, Conf: "dc", Body: []byte("see " + s + " and more")})
+				})
+				for _, smp := range samples() {
+					if smp.Big {
+						continue
+					}
+					for _, p := range sortedProfiles() {
+						emit(&Case{Space: "dc-links", Desc: "sample " + smp.Name, Profile: p, Status: 200, Conf: "dc", Body: smp.Data})
+					}
+				}
+			}},
 		{Name: "status-location",
 			About: "21 status codes x Location in {absent, valid, relative, scheme-less, garbage...} x body in {empty, html}",
 			Gen: func(th bool, emit func(*Case)) {
